@@ -342,6 +342,11 @@ func lzfDecompress(in []byte, outlen int) (out []byte, err error) {
 			err = errors.Errorf("decompress exception: %v", x)
 		}
 	}()
+	// a back reference of 3 input bytes yields at most 264 output bytes : a
+	// larger length field (damaged snapshot) must not size the allocation
+	if outlen < 0 || outlen > len(in)*264 {
+		return nil, errors.Errorf("decompress length %d is impossible for %d compressed bytes", outlen, len(in))
+	}
 	out = make([]byte, outlen)
 	i, o := 0, 0
 	for i < len(in) {
